@@ -542,7 +542,7 @@ impl<Key, Filter, Child> HierarchicalFilters<Key, Filter, Child> {
 
     /// Count of childs in container
     pub fn len(&self) -> usize {
-        self.children.len()
+        self.children.iter().flatten().count()
     }
 
     /// Clear container
